@@ -46,7 +46,13 @@ RULE = ("cases: random known-haplotype sets (1..6 haplotypes over 1..4 SNVs, sha
         "haplotypes); compound_step as plain Python and compiled (seed_numba) with the cache shared by consecutive steps; mcmc_sampler traces. "
         "Non-trivial: >= 2 haplotypes and (a repeated allele in the genotype or non-flat frequencies). Distinct by request line.")
 
-INBREEDING = [0.0, 0.01, 0.25, 0.5, 0.9]
+def rel_of(F):
+    """relative tolerance of a probability: with a tiny non-zero inbreeding coefficient the dispersion parameters are ~ 1/F and the
+    code's differences of lgamma values lose about eps * lgamma(1/F) ~ 1e-16 * (1/F) * ln(1/F) in the log (2e-5 covers F >= 1e-5)"""
+    return 1e-9 if (F == 0 or F >= 1e-3) else 2e-5
+
+
+INBREEDING = [0.0, 0.01, 0.25, 0.5, 0.9, 0.001, 0.0001, 0.00005, 0.00001]      # incl. tiny non-zero values (not the F = 0 branch)
 
 
 def gen_call_instance(r, max_haps=6, pooled=False, panel=False, styles=("encoded", "encoded", "free", "hard"), max_reads=6, max_count=3,
@@ -436,7 +442,7 @@ def run(tier, replay=None):
         chk.case(line, nontriv, sample={"request": line[:240], "impl": vecs["jit"][:12], "model": model[:12]})
         for name in ("jit", "py"):
             v = vecs[name]
-            if len(v) != len(model) or any(not C.close(x, y, rel=1e-9, abs_=1e-12) for x, y in zip(v, model)):
+            if len(v) != len(model) or any(not C.close(x, y, rel=rel_of(F), abs_=1e-12) for x, y in zip(v, model)):
                 chk.disagreement(f"{op} probabilities ({name}) != model", {**case, "impl": v[:40], "model": model[:40]})
                 break
         # ---------------- oracles on the implementation
@@ -444,7 +450,7 @@ def run(tier, replay=None):
         if op == "call.gibbs":
             for x in range(n):
                 exp = float(ws[x] / tot)
-                if not C.close(v[x], exp, rel=1e-8, abs_=1e-12):
+                if not C.close(v[x], exp, rel=10 * rel_of(F), abs_=1e-12):
                     chk.violation("Gibbs probability is not the exact full conditional of the call-exact posterior",
                                   {**case, "allele": x, "impl": v[x], "expected": exp}, "C02/gibbs/conditional")
                     break
@@ -528,13 +534,13 @@ def run(tier, replay=None):
                     f0_product_underflows(st[:k] + [x] + st[k + 1:], freqs) for x in range(n)):
                 chk.count("numeric:F0-frequency-product-underflow(observed, not compared)")
                 continue
-            if any(not C.close(x, y, rel=1e-9, abs_=1e-12) for x, y in zip(probs.tolist(), model)):
+            if any(not C.close(x, y, rel=rel_of(F), abs_=1e-12) for x, y in zip(probs.tolist(), model)):
                 chk.disagreement(f"{op} probabilities with the likelihood cache in use != model",
                                  {"haplotypes": haps, "alleles": st, "position": k, "inbreeding": F, "impl": probs.tolist(), "model": model})
                 # the property's own oracle: the cached vector must equal the uncached one (which is checked against the exact conditional above)
                 probs2 = np.full(n, np.nan)
                 fn(np.array(st, dtype=dt), k, harr, reads, counts, F, np.full(n, np.nan), np.full(n, np.nan), probs2, frequencies=freqs, llk_cache=None)
-                if any(not C.close(x, y, rel=1e-9, abs_=1e-12) for x, y in zip(probs.tolist(), probs2.tolist())):
+                if any(not C.close(x, y, rel=rel_of(F), abs_=1e-12) for x, y in zip(probs.tolist(), probs2.tolist())):
                     chk.violation("the move distribution of the call sampler changes when its likelihood cache is in use",
                                   {"haplotypes": haps, "alleles": st, "position": k, "with_cache": probs.tolist(), "without": probs2.tolist()},
                                   "C02/options/cache-dependence")
